@@ -119,6 +119,28 @@ void explore09(Options const& o, std::vector<Shim*> const& shims, std::vector<Sh
         rec.add_states(static_cast<u64>(KD), static_cast<u64>(KD), static_cast<u64>(KD));
         }
       }
+      // two-call histories over neighbouring turns, single-threaded: f(T*2phi + d1); f((T+j)*2phi + r) for every turn T of a
+      // prefix, small j and residues near the quarter points; the second value must still be the base value of its residue
+      // (a reduction that remembers the previous turn is exact for single calls and for ascending sweeps)
+      {
+      LocalViol lv(rec); u64 n = 0;
+      std::vector<i64> R2;
+      for( i64 q = 0; q <= 4; ++q ) for( i64 d : { -9000ll, -5000ll, -100ll, -1ll, 0ll, 1ll, 100ll, 5000ll, 9000ll } ) { i64 r = q * (P2 / 4) + d; if( r >= 0 && r < P2 ) R2.push_back(r); }
+      std::sort(R2.begin(), R2.end()); R2.erase(std::unique(R2.begin(), R2.end()), R2.end());
+      i64 TMAX = th ? 1024 : 300;
+      for( i64 T = 2; T <= TMAX; ++T ) for( i64 d1 : std::vector<i64>{ 0, 1, 100, 5000, 9000, P2 - 1, P2 / 2 } ) for( i64 j = -3; j <= 3; ++j ) for( int sgn = 0; sgn < 2; ++sgn )
+        {
+        i64 x1 = (T * P2 + d1) * (sgn ? -1 : 1);
+        for( size_t ri = 0; ri < R2.size(); ++ri )
+          {
+          i64 k = (T + j) * (sgn ? -1 : 1) - (sgn ? 1 : 0); i64 rho = R2[ri]; i64 x2 = k * P2 + rho; ++n;
+          s->fm_un(op, x1); i64 g = s->fm_un(op, x2);
+          HistViol hv { lv, op, x1 };
+          c.period(s, fn, rho, k, base[static_cast<size_t>(rho)], g, ob2 | (6ull << 48) | n, hv);
+          }
+        }
+      rec.add_states(n, 2 * n, n); rec.count("two_call_histories_over_neighbouring_turns", n);
+      }
       // S x k
       parallel_blocks(S.size(), o.threads, [&](size_t i, int) {
         LocalViol lv(rec);
@@ -148,7 +170,7 @@ void replay09(Options const& o, Shim* s, Recorder& rec)
     c.acc(s, fn, x, s->fm_un(op, x), 0, d);
     i64 out; s->fm_un_range(op, x, 1, &out); c.acc(s, fn, x, out, 0, d);
     }
-  else { i64 k = parse_i64(o.rin.at(2)); c.period(s, fn, x, k, s->fm_un(op, x), s->fm_un(op, x + k * P2), 0, d); }
+  else { i64 k = parse_i64(o.rin.at(2)); i64 g = s->fm_un(op, x + k * P2); i64 b = s->fm_un(op, x); c.period(s, fn, x, k, b, g, 0, d); }   // the far argument first: it may be the second call of a recorded history
   rec.add_states(1,1,1);
   }
 
@@ -241,6 +263,26 @@ void explore10(Options const& o, std::vector<Shim*> const& shims, std::vector<Sh
       ++poles;
       }
     rec.count("branch.pole_arguments_checked", 2 * poles);
+    // two-call histories over neighbouring periods (see C09)
+    {
+    LocalViol lv(rec); u64 n = 0;
+    std::vector<i64> R2;
+    for( i64 q = 0; q <= 4; ++q ) for( i64 d : { -9000ll, -5000ll, -100ll, -1ll, 0ll, 1ll, 100ll, 5000ll, 9000ll } ) { i64 r = q * (PHI / 4) + d; if( r >= 0 && r < PHI ) R2.push_back(r); }
+    std::sort(R2.begin(), R2.end()); R2.erase(std::unique(R2.begin(), R2.end()), R2.end());
+    i64 TMAX = th ? 1024 : 300;
+    for( i64 T = 4; T <= TMAX; ++T ) for( i64 d1 : std::vector<i64>{ 0, 1, 100, 5000, 9000, PHI - 1, PHI / 2 } ) for( i64 j = -3; j <= 3; ++j )
+      {
+      i64 x1 = T * PHI + d1;
+      for( size_t ri = 0; ri < R2.size(); ++ri )
+        {
+        i64 k = T + j, rho = R2[ri], x2 = k * PHI + rho; ++n;
+        s->fm_un(U_TAN, x1); i64 g = s->fm_un(U_TAN, x2);
+        HistViol hv { lv, U_TAN, x1 };
+        c.period(s, rho, k, base[static_cast<size_t>(rho)], g, ob | (6ull << 48) | n, hv);
+        }
+      }
+    rec.add_states(n, 2 * n, n); rec.count("two_call_histories_over_neighbouring_periods", n);
+    }
     // every k of a dense range for the residues at which a reduction by word folding changes behaviour: (2^e mod phi) + d
     {
     std::vector<i64> res;
@@ -286,7 +328,7 @@ void replay10(Options const& o, Shim* s, Recorder& rec)
   i64 x = parse_i64(o.rin.at(0));
   if( o.rcase == "acc" ) { c.X0 = x; c.X1 = x; c.tab.assign(1, C10::one(x, nullptr)); c.acc(s, x, s->fm_un(U_TAN, x), 0, d); i64 out; s->fm_un_range(U_TAN, x, 1, &out); c.acc(s, x, out, 0, d); }
   else if( o.rcase == "str" ) c.structure(s, x, s->fm_un(U_TAN, x), s->fm_un(U_TAN, -x), 0, d);
-  else { i64 k = parse_i64(o.rin.at(1)); c.period(s, x, k, s->fm_un(U_TAN, x), s->fm_un(U_TAN, x + k * PHI), 0, d); }
+  else { i64 k = parse_i64(o.rin.at(1)); i64 g = s->fm_un(U_TAN, x + k * PHI); i64 b = s->fm_un(U_TAN, x); c.period(s, x, k, b, g, 0, d); }
   rec.add_states(1,1,1);
   }
 bool judge09(Shim* s, Recorder& rec, std::string const& kind, std::vector<u64> const& a, u64 value, u64 idx)
